@@ -204,6 +204,18 @@ CHECKS = {
         "without the null-key rows must be right).",
         "4/C16",
     ),
+    "C03": (
+        "differential runtime monitor: Pandas executor vs Polars executor (eager input, lazy input, eager model)",
+        "Random well-typed pipelines (all public operators, joins with same-named and differently named keys, nulls, "
+        "duplicates, empty tables) are evaluated by the Pandas executor and by the Polars executor three ways (eager "
+        "frames, lazy frames, PolarsModel(use_lazy_eval=False)). A Polars raise is an allowed outcome, counted by "
+        "exception class; a returned table that differs from the Pandas table in columns, row multiset or (after a final "
+        "order_rows) key order is a violation; failing cases are shrunk and replayable.",
+        "Trusted: the Pandas executor as reference; executions with a null operand of a comparison (Pandas two-valued "
+        "logic, recorded under C01) are not generated; about a fifth of the cases raise on Polars 1.44 (removed "
+        "Expr.cumsum/... API), which the property allows.",
+        "4/C03",
+    ),
 }
 
 NOT_BUILT = "check not built yet (build in progress, see DESIGN.md section 8)"
